@@ -1,5 +1,5 @@
 SPECIFICATION Spec
-CONSTANTS Mode = "complex"  Variant = "cplx_quad"  Family = "list"  List = { 1090112 }  Steps = 2
+CONSTANTS Mode = "complex"  Variant = "cplx_quad"  Family = "list"  List = { 1090112 }  Steps = 2  PairMod = 7
           Extra = { 1002 }
 INVARIANT TypeOK
 INVARIANT RealStaysReal
